@@ -13,7 +13,12 @@ pub trait FilterPredicate: Send + Sync {
 
     /// Evaluate predicate for all rows, returning a selection vector.
     fn evaluate_batch(&self, chunk: &DataChunk) -> SelectionVector {
-        SelectionVector::from_predicate(chunk.len(), |i| self.evaluate(chunk, i))
+        // Row indices are physical: with a selection vector on the input only the selected
+        // rows are candidates (chunk.len() counts selected rows, not physical ones).
+        match chunk.selection() {
+            Some(selected) => selected.filter(|i| self.evaluate(chunk, i)),
+            None => SelectionVector::from_predicate(chunk.len(), |i| self.evaluate(chunk, i)),
+        }
     }
 }
 
